@@ -71,23 +71,23 @@ Section SwComplete.
     - destruct (IH H) as [l' [t' [to' [Hin Hr]]]]. exists l', t', to'. split; [right; exact Hin | exact Hr].
   Qed.
 
-  Theorem sw_complete_tables word log acc : forall fuel state ci,
+  Theorem sw_complete_tables word acc : forall fuel state ci,
       (String.length word - ci < fuel)%nat ->
       exists b st' ci',
-        sw_loop fuel Repaired true a benv Tw acc word state ci log = Ok (b, st', ci', log)
+        (forall log, sw_loop fuel Repaired true a benv Tw acc word state ci log = Ok (b, st', ci', log))
         /\ (ci <= ci')%nat
         /\ greedy state (Glob.sdrop ci word) st' (Glob.sdrop ci' word).
   Proof.
     induction fuel as [| f IH]; intros state ci Hf; [lia |].
     cbn [sw_loop quirky orb]. destruct (Nat.leb (String.length word) ci) eqn:El.
-    - apply Nat.leb_le in El. exists true, state, ci. split; [reflexivity | split; [lia |]].
+    - apply Nat.leb_le in El. exists true, state, ci. split; [intro log; reflexivity | split; [lia |]].
       apply greedy_stop. rewrite (gsdrop_nil_iff ci word El). intros lit to Hin.
       destruct lit; [exfalso; apply (Hne state EmptyString to Hin); reflexivity | reflexivity].
     - apply Nat.leb_gt in El. set (sub := Glob.sdrop ci word).
       assert (Hstopped : (forall lit to, In (lit, to) (enabled Tw state) -> String.prefix lit sub = false) ->
-                         exists b st' ci', (Ok (false, state, ci, log) : M (bool * N * nat * list invocation)) = Ok (b, st', ci', log) /\ (ci <= ci')%nat
+                         exists b st' ci', (forall log : list invocation, (Ok (false, state, ci, log) : M (bool * N * nat * list invocation)) = Ok (b, st', ci', log)) /\ (ci <= ci')%nat
                                            /\ greedy state sub st' (Glob.sdrop ci' word)).
-      { intro Hs. exists false, state, ci. split; [reflexivity | split; [lia | apply greedy_stop; exact Hs]]. }
+      { intro Hs. exists false, state, ci. split; [intro log; reflexivity | split; [lia | apply greedy_stop; exact Hs]]. }
       destruct (assocN state (t_mlit Tw)) as [st |] eqn:Es.
       + cbn [lit_loop obind]. destruct (lit_loop_str true (indexed_from 0 (literal_texts Tw)) st sub) as [to adv | |] eqn:Ell.
         * apply lit_loop_true_cont in Ell. destruct Ell as [lid [lit [Hin [Ha [Hp ->]]]]].
@@ -137,19 +137,18 @@ Section SwComplete.
   Qed.
 
   (** the completing half as a whole *)
-  Theorem subword_complete_tables word log : printable_str word = true ->
+  Theorem subword_complete_tables word : printable_str word = true ->
     exists st' cp mp,
-      subword_complete Repaired a benv Tw word log
-      = Ok (first_nonempty (sw_offered st' mp cp) (S (N.to_nat (t_maxlevel Tw))) 0, log)
+      (forall log, subword_complete Repaired a benv Tw word log
+                   = Ok (first_nonempty (sw_offered st' mp cp) (S (N.to_nat (t_maxlevel Tw))) 0, log))
       /\ word = append mp cp /\ greedy 0 word st' cp.
   Proof.
     intro Hp. unfold subword_complete, subword_complete_from.
-    destruct (sw_complete_tables word log [] (sw_fuel Tw word) 0 0%nat) as [b [st' [ci' [E [_ Hg]]]]]; [unfold sw_fuel; lia |].
+    destruct (sw_complete_tables word [] (sw_fuel Tw word) 0 0%nat) as [b [st' [ci' [E [_ Hg]]]]]; [unfold sw_fuel; lia |].
     cbn [Glob.sdrop] in Hg.
     exists st', (Glob.sdrop ci' word), (stake ci' word).
     assert (Ew : word = append (stake ci' word) (Glob.sdrop ci' word)) by (symmetry; apply stake_sdrop).
     split; [| split; [exact Ew | exact Hg]].
-    replace (sw_loop (sw_fuel Tw word) Repaired true a benv Tw [] word 0 0 log) with (Ok (b, st', ci', log) : M _).
-    cbn [obind]. apply sw_levels_tables. rewrite <- Ew. exact Hp.
+    intro log. rewrite (E log). cbn [obind]. apply sw_levels_tables. rewrite <- Ew. exact Hp.
   Qed.
 End SwComplete.
